@@ -70,7 +70,10 @@ def _docstring(r: Any, fmt: str, n0: int, params: List[str], allow_param: bool, 
         n[0] += 1
         return f'q{n[0]}'
     xref = (lambda t: f'L{{nosuch_{t}}}') if fmt == 'epytext' else (lambda t: f'`nosuch_{t}`')
-    words = lambda k: ' '.join(f'word{r.randrange(1000)}' for _ in range(k))  # noqa: E731
+    # (epytext: a word may hold a character that some line-splitting routines take for a line end -- the
+    # information separators, NEL, LINE/PARAGRAPH SEPARATOR --; the lines of a docstring are those of its source file)
+    odd = (lambda: r.choice(['\x1c', '\x1d', '\x1e', '\x85', '\u2028', '\u2029']) if fmt == 'epytext' and r.random() < .04 else '')  # noqa: E731
+    words = lambda k: ' '.join(f'wo{odd()}rd{r.randrange(1000)}' for _ in range(k))  # noqa: E731
     nblocks = r.randint(1, 4)
     for b in range(nblocks):
         if lines:
